@@ -1204,6 +1204,9 @@ class Engine:
         if kind == "for":
             fr.locals[idxname] = VInt(0)
             fr.locals["_seq%d" % ordn] = seq
+        pre_ghost = {g: self.eval_str(ex, fr) for g, ex in spec.get("entry_ghost", {}).items()}
+        for g, v in pre_ghost.items():
+            self.ghost[g] = v
         # 1. invariant holds on entry
         for i, inv in enumerate(spec.get("invariant", [])):
             self.oblige("%s.inv_init[%d]" % (label, i), self.eval_merged(lambda inv=inv: self.truth(self.eval_str(inv, fr))), kind="loop-init", site=st.lineno, note=inv)
@@ -1238,10 +1241,18 @@ class Engine:
                     continue
                 pre[name] = fr.locals[name]
                 cur = fr.locals[name]
+                if name in spec.get("types", {}):
+                    fr.locals[name] = self.fresh(spec["types"][name], "%s_%s" % (label, name))
+                    continue
                 if isinstance(cur, VObj):
                     # an object the loop mutates through method calls: havoc its state in place (identity is kept)
                     for f in list(cur.fields):
-                        if isinstance(cur.fields[f], (VStr, VInt, VBool, VReal, VOpt)):
+                        ty = cur.fieldty.get(f)
+                        if ty and not ty.startswith(("maybe:", "ghost:", "obj:", "opaque:")):
+                            cur.fields[f] = self.fresh(ty, "%s_%s_%s" % (label, name, f))
+                        elif cur.fields[f] is NONE and ty is None:
+                            raise OutOfSubset("loop havoc of %s.%s: field is None before the loop and has no declared type" % (name, f))
+                        elif isinstance(cur.fields[f], (VStr, VInt, VBool, VReal, VOpt)):
                             cur.fields[f] = self.fresh_like(cur.fields[f], "%s_%s_%s" % (label, name, f))
                     continue
                 if cur is NONE or isinstance(cur, VOpt):
@@ -1257,6 +1268,9 @@ class Engine:
                 self.world.set_global(self, fr.module, name, self.fresh_like(cur, "%s_%s" % (label, name)))
         for g in spec.get("havoc_ghost", []):
             self.ghost[g] = self.fresh_like(self.ghost[g], "%s_ghost_%s" % (label, g))
+        for g, ex in spec.get("entry_ghost", {}).items():
+            # value of an expression when the loop is entered (before the havoc), for use in the invariant
+            self.ghost[g] = pre_ghost[g]
         if kind == "for":
             k = z3.Int(self.fresh_name(label + "_k"))
             self.assume(k >= 0)
@@ -1375,6 +1389,9 @@ class Engine:
             o = VObj(v.cls, name=self.fresh_name(hint))
             o.fieldty = dict(v.fieldty)
             return o
+        if isinstance(v, VDict) and v.items and v.sym is None and not v.overrides and all(isinstance(x, (VStr, VInt, VBool)) for x in v.items.values()):
+            # a dict with a fixed set of literal keys (flags): the keys stay, the values are unknown
+            return VDict({k: self.fresh_like(x, "%s_%s" % (hint, k)) for k, x in v.items.items()})
         if isinstance(v, VDict):
             vt = v.valty
             if vt is None:
